@@ -20,6 +20,10 @@ STRS = ["", "a", "tok", "12/34", "a b", "a  b", " lead", "trail ", "\"q\"", "bac
         "x" * 300, "ÿ", "\u0080"]
 TT = ["bearer", "Bearer", "BEARER", "bEaReR", "mac", "MAC", "Mac", "dpop", "DPoP", "N_A", "urn:x", "", " bearer", "bearer ", "日本", "\U0001F600", "b e", "pop-1",
       "ÉCLAIR", "Schlüssel", "SCHLÜSSEL", "ÀÞ×ß", "ПРИВЕТ", "Ёж", "ΑΒΓΩ", "αβγ", "ÉÉ-Ö_Ü", "ǅwt", "ǄWT", "ǈ", "ǋǊ", "ǲ-ǱX"]
+# scope strings: the ONLY separator is the space character; every other character (comma, plus, semicolon, tab,
+# line feed, NBSP, ...) is part of a scope token
+SCOPE_VALUES = ["", "a", "read write", "a  b", " a", "a ", "openid profile email", None, "é 日本", "a\tb", "a,b", "urn:acme:doc,rw", ",", "a,b c,d",
+                "a+b", "a;b", "a|b", "a\nb", "a\u00a0b", "a%20b", "a\u3000b", "a\rb", "repo,user", "read:org,write:org", "a,", ",a", "a\u2003b", "https://x/y?z=1&w=2"]
 UNKNOWN_NAMES = ["foo", "id", "x", "Access_Token", "access-token", "expires", "scopes", "data", "é", "", "active2", "error", "error_description"]
 URLS_VALID = ["https://verify/here", "https://example.com/device?x=1", "HTTPS://EXAMPLE.COM/Dev", "https://exämple.com/ü", "custom:opaque", "https://e/" + "v" * 200]
 URLS_INVALID = ["", "verify/here", "//host/x", "https://", "not a url", "http://[::1"]
@@ -171,7 +175,7 @@ def token_members(rng, ext):
     if rng.random() < 0.5:
         m.append(("refresh_token", rng.choice(STRS + [None])))
     if rng.random() < 0.6:
-        m.append(("scope", rng.choice(["", "a", "read write", "a  b", " a", "a ", "openid profile email", None, "é 日本", "a\tb"])))
+        m.append(("scope", rng.choice(SCOPE_VALUES)))
     if ext:
         if rng.random() < 0.6:
             m.append(("id_token", rng.choice(STRS + [None])))
@@ -193,7 +197,7 @@ def intro_members(rng, ext):
     m = [("active", rng.choice([True, False]))]
     opt = lambda p=0.4: rng.random() < p
     if opt():
-        m.append(("scope", rng.choice(["", "a", "read write", None, "a  b"])))
+        m.append(("scope", rng.choice(SCOPE_VALUES)))
     if opt():
         m.append(("client_id", rng.choice(STRS + [None])))
     if opt():
@@ -348,6 +352,17 @@ def gen_decode(fam, tier, rng, n_docs=None):
                 out.append((decode_line(dfam, "M", render(obj(bm + [(alias, val)]), rng, plain=True)), "alias-beside-map-extension"))
             reduced = [(k, v) for k, v in bm if k in required]
             out.append((decode_line(dfam, False, render(obj(reduced + [(alias, val)]), rng, plain=True)), "alias-instead"))
+    if efam in ("token", "introspection"):
+        for sv in SCOPE_VALUES:
+            doc = [(k, v) for k, v in bm if k != "scope"] + [("scope", sv)]
+            out.append((decode_line(dfam, False, render(obj(doc), rng, plain=True)), "scope-value"))
+        for code in range(0x21, 0x7f):
+            ch = chr(code)
+            if ch in '"\\':
+                continue
+            doc = [(k, v) for k, v in bm if k != "scope"] + [("scope", "a%sb" % ch)]
+            if tier == "thorough" or code % 2 or ch in ",;+|":
+                out.append((decode_line(dfam, False, render(obj(doc), rng, plain=True)), "scope-single-character"))
     # vendor members: delivered to a map-typed extension whatever their value, ignored otherwise
     if efam != "error":
         for vn in VENDOR_NAMES:
